@@ -49,13 +49,15 @@ def extra(ctx):
                 "From AGH Require Import Proofs.AuthCreds.\n"
                 "Definition ON := Eval vm_compute in idx (fun rt => exception rt || blind_before_auth (chain_of reg_method rt)) routes.\nPrint ON.\n"
                 "From AGH Require Import Proofs.AuthMethod.\n"
-                "Definition OC := Eval vm_compute in idx route_method_ok routes.\nPrint OC.\n")
+                "Definition OC := Eval vm_compute in idx route_method_ok routes.\nPrint OC.\n"
+                "From AGH Require Import Model.AuthLife Proofs.AuthLife.\n"
+                "Definition OA := Eval vm_compute in idx (route_after_setup_ok reg_method) routes.\nPrint OA.\n")
     rc, out = ctx.run(["coqc", "-Q", ctx.COQ, "AGH", "-w", "none", src], cwd=ctx.workdir, timeout=600)
     if rc != 0:
         ctx.fail("proof", "the route table could not be evaluated: " + " ".join(out.split())[:300], detail=out[-2000:])
         return
     found = []
-    lists = {"OR": routes, "OB": tab["bindings"], "OM": tab["muxes"], "OS": tab["servers"], "ON": routes, "OC": routes}
+    lists = {"OR": routes, "OB": tab["bindings"], "OM": tab["muxes"], "OS": tab["servers"], "ON": routes, "OC": routes, "OA": routes}
     for name, items in lists.items():
         ix = _indices(out, name)
         if ix is None:
@@ -82,6 +84,13 @@ def extra(ctx):
                                       "gate nor the control lock) and a pattern must be a plain path (a method inside the pattern makes the mux answer 405 before the guard)"
                                       % (it["pattern"], it["pos"], decl, it["pattern"]),
                               "detail": it, "key": "route-method:" + it["pattern"]})
+            elif name == "OA":
+                chain = " ".join(w["kind"] for w in (it.get("chain") or [])) or "-"
+                found.append({"what": "route %s %s registered at %s (chain: %s): after set-up (firstRun false, an account exists) it is neither closed by preInstall "
+                                      "nor guarded nor one of the five routes that are meant to be open (login, mobileconfig, /dns-query); a pattern of the wizard "
+                                      "(/install.html, /control/install/...) must have preInstall in front"
+                                      % (it.get("method") or "*", it["pattern"], it["pos"], chain),
+                              "detail": it, "key": "route-after-setup:" + it["pattern"]})
             elif name == "OB":
                 found.append({"what": "a RegisterFunc value is bound to %s at %s, which is not home.httpRegister" % (it["text"], it["pos"]),
                               "detail": it, "key": "binding:" + it["pos"]})
@@ -109,11 +118,35 @@ def extra(ctx):
                               "would start with globalContext.auth == nil and optionalAuth lets every request through "
                               "(C11_startup_code fails; see C11_startup_slips_refuted)",
                       "detail": su, "key": "startup:" + ",".join(bad)})
+    # round 5: when do the wrapper constructors look at the state?
+    wl = (tab.get("life") or {}).get("wrappers") or []
+    ctx.extra_coverage["wrapper_constructors"] = {w["name"]: w["lazy"] for w in wl}
+    ctx.extra_obligations += len(wl)
+    need = {"postInstall", "preInstall", "optionalAuth", "ensure"}
+    for w in wl:
+        if w["lazy"]:
+            ctx.extra_discharged += 1
+        else:
+            found.append({"what": "wrapper constructor %s (%s): %s: a route wrapped during the first run (or before an account exists) keeps that decision "
+                                  "after the wizard has completed (see C11_wrap_time_decision_refuted)"
+                                  % (w["name"], w.get("pos") or "?", w.get("note") or "not recognised as lazy"),
+                          "detail": w, "key": "wrapper-not-lazy:" + w["name"]})
+    for n in sorted(need - {w["name"] for w in wl}):
+        found.append({"what": "wrapper constructor %s was not found in package home" % n, "detail": None, "key": "wrapper-not-lazy:" + n})
+    cc = (tab.get("life") or {}).get("configure") or {}
+    cflags = ["order", "err_branches", "no_other_write", "writers_ok"]
+    ctx.extra_coverage["configure_skeleton"] = {k: cc.get(k) for k in cflags + ["first_run_writers", "pos"]}
+    ctx.extra_obligations += len(cflags)
+    cbad = [k for k in cflags if not (cc.get("found") and cc.get(k))]
+    ctx.extra_discharged += len(cflags) - len(cbad)
+    if cbad:
+        found.append({"what": "handleInstallConfigure / writers of globalContext.firstRun: " + ("; ".join(cc.get("notes") or []) or "idiom not recognised (%s)" % ", ".join(cbad)),
+                      "detail": cc, "key": "configure:" + ",".join(cbad)})
     if not found:
         ctx.extra_discharged += len(routes)
         return
     ctx.extra_discharged += len(routes) - len([f for f in found if f["key"].startswith("route:")])
     # put the precise statements first, so that the replay file names them
-    fails = [{"kind": "proof", "what": ("C11_startup_code fails: " if f["key"].startswith("startup:") else "C11_routes_refusal_uniform fails: " if f["key"].startswith("route-not-blind:") else "C11_routes_methods_canonical fails: " if f["key"].startswith("route-method:") else "C11_all_routes_guarded fails: ") + f["what"], "detail": f["detail"],
+    fails = [{"kind": "proof", "what": ("C11_startup_code fails: " if f["key"].startswith("startup:") else "C11_routes_refusal_uniform fails: " if f["key"].startswith("route-not-blind:") else "C11_routes_methods_canonical fails: " if f["key"].startswith("route-method:") else "C11_wrappers_code fails: " if f["key"].startswith("wrapper-not-lazy:") else "C11_configure_code fails: " if f["key"].startswith("configure:") else "C11_routes_after_setup fails: " if f["key"].startswith("route-after-setup:") else "C11_all_routes_guarded fails: ") + f["what"], "detail": f["detail"],
               "finding_key": f["key"], "failing_input_found": False} for f in found]
     ctx.failures[:0] = fails
